@@ -112,6 +112,13 @@ func init() {
 		latSig{part: "special", cases: re(`^map\[bool\]string: name (1|t|T|TRUE|True)$`), observe: re(`^reads ok s:yes,true, want s:,false$`)},
 		latSig{part: "special", cases: re(`^map\[int\]string: store under alias name$`), observe: re(`^store under the name "010" left the Go map as map\[0:z 8:w 16:b\]$`)},
 	))
+	engine.RegisterSignature("c16-number-to-string-go-format-store", anyOf(
+		latSig{part: "store", shapes: []string{"field"}, elems: []string{"string", "LColor"}, observe: re(`^stored (string|c16\.LColor)\("\+Inf"\)$`)},
+	))
+	engine.RegisterSignature("c16-promoted-field-depth-rule", anyOf(
+		latSig{part: "special", cases: re(`^promoted fields: the shallower one wins \(read\)$`), observe: re(`^reads ok d:1, want d:2$`)},
+		latSig{part: "special", cases: re(`^promoted fields: the shallower one wins \(write\)$`), observe: re(`^the write completed: script reads d:7, Go side 2 7 `)},
+	))
 	engine.RegisterSignature("c16-go-integer-copied-through-float64", anyOf(
 		latSig{part: "special", cases: re(`^copy int64 2\^53\+1 between elements$`), observe: re(`^the write completed: script reads d:0, Go side 9007199254740992 0 `)},
 	))
